@@ -1708,12 +1708,14 @@ def real_samples(
 
     if user_specified_bounds:
         if min_value >= dtype(0):
-            start, end = min_value.view(utype), max_value.view(utype)
+            # abs maps -0.0 to 0.0 which bit pattern is that of a non-negative value
+            start, end = abs(min_value).view(utype), max_value.view(utype)
             step = int(end - start)
             r = (start + numpy.array([i // (num - 1) for i in range(0, num * step, step)], dtype=utype)).view(dtype)
             assert r.size == num
         elif max_value <= -dtype(0):
-            start, end = max_value.view(utype), min_value.view(utype)
+            # -abs maps 0.0 to -0.0 which bit pattern is that of a non-positive value
+            start, end = (-abs(max_value)).view(utype), min_value.view(utype)
             step = int(end - start)
             r = (start + numpy.array([i // (num - 1) for i in range(0, num * step, step)], dtype=utype)).view(dtype)
             assert r.size == num
